@@ -37,13 +37,15 @@ Open Scope N_scope.
 Inductive var :=
   | VArgs | VArgsGet | VArgsPost | VArgsNames | VArgsGetNames | VArgsPostNames
   | VReqHeaders | VReqHeadersNames | VTx | VMatchedVar | VMatchedVarName
-  | VReqMethod | VQueryString.
+  | VReqMethod | VQueryString
+  | VArgsCombinedSize.          (* collections.SizeCollection over ARGS_GET, ARGS_POST: a derived view *)
 
 Definition var_code (v : var) : N :=
   match v with
   | VArgs => 0 | VArgsGet => 1 | VArgsPost => 2 | VArgsNames => 3 | VArgsGetNames => 4
   | VArgsPostNames => 5 | VReqHeaders => 6 | VReqHeadersNames => 7 | VTx => 8
   | VMatchedVar => 9 | VMatchedVarName => 10 | VReqMethod => 11 | VQueryString => 12
+  | VArgsCombinedSize => 13
   end.
 Definition var_eqb (a b : var) : bool := var_code a =? var_code b.
 
@@ -55,6 +57,7 @@ Definition var_name (v : var) : bytes :=
   | VReqHeadersNames => str "REQUEST_HEADERS_NAMES"%string | VTx => str "TX"%string
   | VMatchedVar => str "MATCHED_VAR"%string | VMatchedVarName => str "MATCHED_VAR_NAME"%string
   | VReqMethod => str "REQUEST_METHOD"%string | VQueryString => str "QUERY_STRING"%string
+  | VArgsCombinedSize => str "ARGS_COMBINED_SIZE"%string
   end.
 
 Record entry := mkE { e_var : var; e_key : bytes; e_val : bytes }.
@@ -217,6 +220,11 @@ Definition kv_entries (v : var) (names : bool) (l : list (bytes * bytes)) : list
 Definition tx_entries (m : txmap) : list entry :=
   map (fun kv => mkE VTx (fst kv) (render (snd kv))) m.
 
+(* sized.go size(): sum of len(key) + len(value) over every stored argument; computed from the
+   collections at every evaluation - a VIEW, no state of its own *)
+Definition kv_size (l : list (bytes * bytes)) : nat :=
+  fold_right (fun kv n => (List.length (fst kv) + List.length (snd kv) + n)%nat) 0%nat l.
+
 (* every entry of the collection, in the canonical (request) order *)
 Definition coll_all (v : var) (rq : request) (post : bool) (s : st) : list entry :=
   let p := if post then q_post rq else [] in
@@ -234,10 +242,11 @@ Definition coll_all (v : var) (rq : request) (post : bool) (s : st) : list entry
   | VMatchedVarName => [mkE VMatchedVarName [] (s_mvn s)]
   | VReqMethod => [mkE VReqMethod [] (q_method rq)]
   | VQueryString => [mkE VQueryString [] (q_query rq)]
+  | VArgsCombinedSize => [mkE VArgsCombinedSize [] (itoa (N.of_nat (kv_size (q_get rq ++ p))))]
   end.
 
 Definition is_single_var (v : var) : bool :=
-  match v with VMatchedVar | VMatchedVarName | VReqMethod | VQueryString => true | _ => false end.
+  match v with VMatchedVar | VMatchedVarName | VReqMethod | VQueryString | VArgsCombinedSize => true | _ => false end.
 
 Definition key_is (k : bytes) (e : entry) : bool := bytes_eqb (lower_ascii (e_key e)) (lower_ascii k).
 
